@@ -35,7 +35,20 @@ bundle out (`NewBundle`, `Build` → `NewBundle`, `BuildFromMap` → `Build`, `F
 theorem gen_validation_calls :
     Gen.C02.unmarshalEndsInCheckValid = true ∧ Gen.C02.newBundleChecks = true ∧
     Gen.C02.buildUsesNewBundle = true ∧ Gen.C02.buildFromMapUsesBuild = true ∧
-    Gen.C02.fragmentChecks = true ∧ Gen.C02.reassembleChecks = true := by decide
+    Gen.C02.fragmentChecks = true ∧ Gen.C02.fragmentChecksEveryFragment = true ∧
+    Gen.C02.reassembleChecks = true := by decide
+
+/-- The node's own bundles (status reports, pongs, routing metadata) are made by these `Builder()`
+call chains in pkg/routing and pkg/agent; the producer stream of the harness runs the same chains. -/
+theorem gen_node_chains :
+    Gen.C02.statusReportChain =
+      ["bpv7.Builder().CRC().Source().Destination().CreationTimestampNow().Lifetime().StatusReport().Build"] ∧
+    Gen.C02.pongChain =
+      ["bpv7.Builder().CRC().Source().Destination().BundleCtrlFlags().CreationTimestampNow().Lifetime().HopCountBlock().PayloadBlock().Build"] ∧
+    Gen.C02.metadataChain =
+      ["bundleBuilder.Source", "bundleBuilder.Destination", "bundleBuilder.CreationTimestampNow",
+       "bundleBuilder.Lifetime", "bundleBuilder.BundleCtrlFlags", "bundleBuilder.PayloadBlock",
+       "bundleBuilder.Canonical", "bundleBuilder.Build"] := ⟨rfl, rfl, rfl⟩
 
 /-- The rule list inside the `CheckValid` family has the shape the model `checkValid` mirrors. -/
 theorem gen_rule_skeletons :
@@ -100,6 +113,19 @@ theorem produced_wellformed_and_accepted (cfg : Cfg) (hs : cfg.strict = true) (n
   have h := Lemmas.parse_serialize cfg hs now b he hchk []
   rw [List.append_nil] at h
   exact ⟨Lemmas.checkValid_sound cfg.strict now b hchk, h.1, h.2⟩
+
+/-- **Fragmentation is sound**: every fragment the loop of `Bundle.Fragment` hands out — the first
+and every later one, whatever offset, total length and slice — is well-formed. The proof rests on
+the per-fragment `CheckValid` (`gen_validation_calls`: `fragmentChecksEveryFragment`). -/
+theorem fragment_sound (strict : Bool) (now : Nat) (b : Bundle) (first : Bool) (off total : Nat)
+    (slice : Bytes) (f : Bundle) (h : fragmentChecked strict now b first off total slice = some f) :
+    WellFormed now f := by
+  unfold fragmentChecked at h
+  split at h
+  · rename_i hv
+    simp only [Option.some.injEq] at h
+    rw [← h]; exact Lemmas.checkValid_sound strict now _ hv
+  · simp at h
 
 /-- What the drivers evaluate on the implementation's outputs is this Spec predicate. -/
 theorem wfRules_iff (now : Nat) (b : Bundle) : (wfRules now b).all (·.2) = true ↔ WellFormed now b :=
@@ -197,5 +223,18 @@ theorem rule_needed_one_payload :
 theorem wire_rejects_hop_count :
     (parse {} wNow (serializeRaw ⟨wPrimary, [{ wHop with value := .hop 3 4 }, wPay]⟩)).toOption = none ∧
     (parse {} wNow (serializeRaw wBase)).toOption = some (wBase, []) := by decide +kernel
+
+/-- Why the check is needed for the later fragments too: a valid bundle with creation time zero whose
+age block is not replicated. Its first fragment is valid, a later one has no age block — it is not
+well-formed, and the loop refuses it (so `Fragment` fails instead of handing it out). -/
+def wZeroTime : Bundle :=
+  ⟨{ wPrimary with tsTime := 0 }, [{ wHop with flags := 1 }, wAge, { wPay with value := .payload [1, 2, 3, 4, 5, 6] }]⟩
+
+theorem fragment_check_needed :
+    checkValid true wNow wZeroTime = true ∧
+    (fragmentChecked true wNow wZeroTime true 0 6 [1, 2, 3]).isSome = true ∧
+    brokenRules wNow (fragmentOf wZeroTime false 3 6 [4, 5, 6]) =
+      ["zero-time-without-age-block", "lifetime-run-out"] ∧
+    fragmentChecked true wNow wZeroTime false 3 6 [4, 5, 6] = none := by decide +kernel
 
 end Dtn7.Props.C02
